@@ -452,12 +452,13 @@ func init() {
 		r.Rule = "bounded exhaustive enumeration of (hostile) lookup structures, mutated table bytes, input sequences and Apply/Layout histories on the real engine; non-trivial = a hostile modification / non-empty history / accepted mutation"
 		r.Assume = []string{
 			"termination is observed with a 20 s watchdog per call (normal calls take microseconds); a stuck call leaks one goroutine",
-			"map-order independence is observed through Go's randomised iteration only (no controlled seam yet)",
+			"map-order independence: every map iteration order of the seam's alphabet in C07.map-order-* (generator lists, deviation bound 1, sequences of length <= 3)",
 			"positioning data the library declares unimplemented (device offsets, vertical advance) is excluded",
 		}
 		c07Structures(r)
 		c07History(r)
 		c07Layouter(r)
 		c07Bytes(r)
+		c07MapOrder(r)
 	})
 }
